@@ -71,6 +71,8 @@ static std::vector<std::pair<std::string, std::string>> random_aux(Rng& rng) {
 	// accepts it holds, and what it holds must survive the round trip
 	static const char* R[] = {"TYPE_OF_TABLE", "ORDERING_SCHEME", "PERIODICITY", "NAXIS_LABELS", "EXTENDED_INFORMATION", "COMMENTARY_ON_FIT",
 	                          "SIMPLEX_METHOD", "BITPIXEL_DEPTH", "TYPE", "ORDER9", "NAXIS", "PERIOD12", "COMMENT", "EXTEND", "TYPEA", "HISTORY_OF_FIT", "END_OF_TABLE"};
+	// one table in ten carries many keys (the primary header then spans several 2880-byte blocks)
+	if (rng.below(10) == 0) { int many = 40 + (int)rng.below(80); for (int i = 0; i < many; i++) a.push_back({i % 3 ? "K" + std::to_string(1000 + i) : "LONGERKEYNUMBER" + std::to_string(1000 + i), V[rng.below(8)]}); }
 	int m = (int)rng.below(4);
 	for (int i = 0; i < m; i++) a.insert(a.begin() + rng.below(a.size() + 1), {R[rng.below(sizeof(R) / sizeof(*R))], V[rng.below(8)]});
 	return a;
